@@ -4,7 +4,8 @@
 (* a token sequence (laid out as text by the harness) and what the real    *)
 (* parser made of it: obs.list (PolicyList.UnmarshalCedar) and obs.single  *)
 (* (Policy.UnmarshalCedar), each [ok, policies].  The specification's      *)
-(* parser (Syntax!ParsePolicyList) decides: same acceptance, same ASTs.    *)
+(* parser (Syntax!ParsePolicyList) decides: same acceptance, same ASTs --  *)
+(* also for obs.padded, the same text behind leading white space.          *)
 (***************************************************************************)
 EXTENDS Syntax, SyntaxTables, Json, IOUtils, TLC
 
@@ -26,6 +27,9 @@ EventOk(ev) ==
   /\ "list" \in DOMAIN ev.obs
   /\ Agrees(ev.obs.list, exp)
   /\ ((~exp.ok \/ Len(exp.v) = 1) => Agrees(ev.obs.single, exp))
+  \* leading white space and comments are not tokens: the same token sequence behind n bytes of padding (n chosen by
+  \* the harness so that a multi-byte character is cut at a multiple of the tokenizer's read buffer) is the same list
+  /\ ("padded" \in DOMAIN ev.obs => \A i \in DOMAIN ev.obs.padded : Agrees(ev.obs.padded[i], exp))
 
 Init == l = 1 /\ bad = <<>>
 Next == /\ l <= Len(Trace)
